@@ -2,6 +2,7 @@ SPECIFICATION TSpec
 CONSTANTS
   Users = {"u1", "u2"}
   Flags = {"R", "F", "T"}
+  FlagSets = {{"R"}, {"F"}, {"T"}, {"R", "F"}, {"R", "T"}, {"F", "T"}, {"R", "F", "T"}}
   MaxCalls = 0
   MaxFaults = 0
   MaxCloses = 0
